@@ -22,16 +22,49 @@ INFO = {
     "not_decided": ["OS-level nondeterminism of multiprocessing", "floating-point reproducibility of the kernels across worker processes"],
 }
 
+# Writers of object state outside __init__ that are accepted, by *form* (so that renaming them
+# changes nothing) or, for public API names, by name with the reason:
+#  - a pure setter: every statement is `self.<attr> = <parameter>` - the caller reconfigures
+#    the object explicitly through the argument, nothing happens "through use";
 SETTER_TABLE = {
-    "panoptica_evaluator:Panoptica_Evaluator.set_log_group_times": "explicit public setter of the timing flag",
-    "panoptica_evaluator:Panoptica_Evaluator._set_instance_approximator": "explicit setter used by benchmarks",
-    "panoptica_evaluator:Panoptica_Evaluator._set_instance_matcher": "explicit setter used by benchmarks",
     "panoptica_evaluator:Panoptica_Evaluator.resulting_metric_keys": "memo of a value determined by the configuration alone",
 }
+#  - module state: an insertion `L.append(v)` guarded by `if v not in L` is idempotent;
 GLOBAL_TABLE = {
-    "utils.config:_register_class_to_yaml": "idempotent registration of serialisable classes (guarded by 'not in')",
     "utils.citation_reminder:citation_reminder.<locals>.wrapper": "one-time banner flag in os.environ; printing only",
 }
+
+
+def is_pure_setter(m: Func) -> bool:
+    """def set_x(self, a, b): self.x = a; self.y = b   (docstring / bare return allowed)."""
+    params = {p.name for p in m.params}
+    body = [st for st in m.node.body if not (isinstance(st, ast.Expr) and isinstance(st.value, ast.Constant))]
+    if not body:
+        return False
+    for st in body:
+        if isinstance(st, ast.Return) and (st.value is None or (isinstance(st.value, ast.Constant) and st.value.value is None)):
+            continue
+        if isinstance(st, (ast.Assign, ast.AnnAssign)):
+            tg = st.targets if isinstance(st, ast.Assign) else [st.target]
+            val = st.value
+            if all(isinstance(t, ast.Attribute) and isinstance(t.value, ast.Name) and t.value.id == m.self_name for t in tg) and isinstance(val, ast.Name) and val.id in params and val.id != m.self_name:
+                continue
+        return False
+    return True
+
+
+def _idempotent_insert(f: Func, call: ast.Call) -> bool:
+    """`L.append(v)` / `L.add(v)` directly under `if v not in L:` with nothing else touching L."""
+    if not (isinstance(call.func, ast.Attribute) and call.func.attr in ("append", "add") and len(call.args) == 1 and not call.keywords):
+        return False
+    cont, val = norm(call.func.value), norm(call.args[0])
+    for node in walk_no_nested(f.node):
+        if isinstance(node, ast.If) and not node.orelse:
+            t = node.test
+            if isinstance(t, ast.Compare) and len(t.ops) == 1 and isinstance(t.ops[0], ast.NotIn) and norm(t.left) == val and norm(t.comparators[0]) == cont:
+                if len(node.body) == 1 and isinstance(node.body[0], ast.Expr) and node.body[0].value is call:
+                    return True
+    return False
 
 
 def _bad_stores(it):
@@ -251,8 +284,8 @@ def check_state_writers(ctx: Ctx):
                     hit = node.func.value
                 if hit is not None:
                     n += 1
-                    ok = m.qual in SETTER_TABLE
-                    ctx.decide("R15.6", m, node, f"{m.qual}:self.{hit.attr}", "configuration objects change their state only in __init__ and the tabled setters", ok, {"stmt": norm(node)[:80], "reason": SETTER_TABLE.get(m.qual)}, nontrivial=False)
+                    ok = m.qual in SETTER_TABLE or is_pure_setter(m)
+                    ctx.decide("R15.6", m, node, f"{m.qual}:self.{hit.attr}", "configuration objects change their state only in __init__, in pure setters (self.x = <argument>) and in the tabled memo", ok, {"stmt": norm(node)[:80], "reason": SETTER_TABLE.get(m.qual) or ("pure setter" if ok else None)}, nontrivial=False)
     if n < 4:
         ctx.undecided("R15.6.floor", None, None, "floor:R15.6", f"{n} attribute writers outside __init__ found, confirmed floor is 4 (the tabled setters)")
 
@@ -266,10 +299,17 @@ def check_globals(ctx: Ctx):
         m = f.module
         for node in walk_no_nested(f.node):
             hit = None
-            if isinstance(node, ast.Global):
-                hit = "global " + ",".join(node.names)
+            idem = False
+            if isinstance(node, (ast.Assign, ast.AugAssign, ast.AnnAssign)):
+                # rebinding a module-level name declared global in this function
+                gl = {n for g in walk_no_nested(f.node) if isinstance(g, ast.Global) for n in g.names}
+                tgs = node.targets if isinstance(node, ast.Assign) else [node.target]
+                for t in tgs:
+                    if isinstance(t, ast.Name) and t.id in gl:
+                        hit = norm(node)[:60]
             if isinstance(node, ast.Call) and isinstance(node.func, ast.Attribute) and node.func.attr in ("append", "extend", "update", "clear", "pop", "insert", "remove", "setdefault", "add") and isinstance(node.func.value, ast.Name) and node.func.value.id in m.assigns and node.func.value.id not in {p.name for p in f.params}:
                 hit = norm(node)[:60]
+                idem = _idempotent_insert(f, node)
             tg = node.targets if isinstance(node, ast.Assign) else []
             for t in tg:
                 if isinstance(t, ast.Subscript) and dotted(t.value) in ("os.environ",):
@@ -278,8 +318,8 @@ def check_globals(ctx: Ctx):
                     hit = norm(node)[:60]
             if hit:
                 n += 1
-                ok = f.qual in GLOBAL_TABLE
-                ctx.decide("R15.7", f, node, f"{f.qual}:{hit}", "module-level state written at run time is on the allow-list", ok, {"reason": GLOBAL_TABLE.get(f.qual)}, nontrivial=False)
+                ok = f.qual in GLOBAL_TABLE or idem
+                ctx.decide("R15.7", f, node, f"{f.qual}:{hit}", "module-level state is written at run time only by idempotent insertions (`if v not in L: L.append(v)`) or tabled sites", ok, {"reason": GLOBAL_TABLE.get(f.qual) or ("idempotent insertion" if idem else None)}, nontrivial=False)
     if n < 2:
         ctx.undecided("R15.7.floor", None, None, "floor:R15.7", f"{n} global writes found, confirmed floor is 2")
 
